@@ -251,8 +251,10 @@ def model_line(i, op):
         return '%d ignore %s' % (i, ','.join(op[1]) if op[1] else '-')
     if k in ('add', 'remove'):
         return '%d %s %s %s' % (i, k, op[1], qid(op[2]))
-    if k in ('save', 'query'):
+    if k in ('save', 'query', 'clear'):
         return '%d %s' % (i, k)
+    if k == 'handle':
+        return '%d handle %s' % (i, op[1])
     raise ValueError(op)
 
 
@@ -351,6 +353,20 @@ def do_op(slot, op):
         if k == 'ignore':
             d.ignoreErrors(*[err_class(c) for c in op[1]])
             return 'ok', None
+        if k == 'clear':
+            d.ignoreErrors(None)
+            return 'ok', None
+        if k == 'handle':
+            # what CImage.data and the loaders do with an error they meet: record it through the document, re-raised unless masked
+            E = err_class(op[1])
+            try:
+                try:
+                    raise E('probe')
+                except err_class('DaeError') as e:
+                    d.handleError(e)
+                return 'ok', None
+            except err_class('DaeError') as e:
+                return 'fail:' + type(e).__name__, None
         if k == 'add':
             L = getattr(d, op[1])
             if op[2] in L:
@@ -1001,7 +1017,7 @@ def gen_ops(rng, maxops):
         ops.append(rng.choice([['save'], ['ignore', ['DaeError']], ['add', 'lights', 'early']]))   # before any document exists
     fresh = 0
     for _ in range(rng.randint(1, maxops)):
-        k = rng.choice(['add', 'add', 'remove', 'remove', 'ignore', 'save', 'save', 'load', 'new', 'save', 'query', 'query'])
+        k = rng.choice(['add', 'add', 'remove', 'remove', 'ignore', 'save', 'save', 'load', 'new', 'save', 'query', 'query', 'handle', 'handle', 'clear'])
         if k == 'add':
             lib = rng.choice(GEN_LIBS)
             fresh += 1
@@ -1015,8 +1031,10 @@ def gen_ops(rng, maxops):
             ops.append(['remove', lib, id_])
         elif k == 'ignore':
             ops.append(['ignore', rng.choice([m for m in MASKS if m])])
-        elif k in ('save', 'query'):
+        elif k in ('save', 'query', 'clear'):
             ops.append([k])
+        elif k == 'handle':
+            ops.append(['handle', rng.choice(ERRS[1:])])
         elif k == 'load':
             if rng.random() < 0.5:
                 s = spec()
@@ -1125,6 +1143,66 @@ def adopt_check(seed):
         what = 'contents' if before[0] != after[0] else 'id index' if before[1] != after[1] else 'written bytes'
         return ('adopt:%s' % what.replace(' ', '-'), 'B.%s = A.%s (%s), then %s on %s.%s: the %s of the OTHER document changed: %s -> %s'
                 % (lib, lib, form, '+'.join(hist), 'B' if actor is b else 'A', lib, what, before[0], after[0]))
+    return None
+
+
+def nested_write_check(seed):
+    """a deterministic interleaving BELOW the granularity of one public call: while document A is being written (its sink's write() is
+    running, which is where another thread gets to run), document B is loaded / written completely. Both outputs must be the bytes each
+    document gives when written alone. Returns None or (signature, text)"""
+    import collada
+    rng = random.Random('c20nest/%s' % seed)
+    specs = []
+    for want14 in rng.choice([(False, True), (True, False), (False, False), (True, True)]):
+        for _ in range(50):
+            sp = gen_doc(rng)
+            sp['fatal'] = None
+            if (sp['ns'] == NS14) == want14:
+                break
+        specs.append(sp)
+    try:
+        a = collada.Collada(io.BytesIO(render(specs[0])), ignore=[err_class('DaeError')])
+        b = collada.Collada(io.BytesIO(render(specs[1])), ignore=[err_class('DaeError')])
+    except Exception:
+        return 'skip'
+
+    def alone(d):
+        buf = io.BytesIO()
+        d.write(buf)
+        return buf.getvalue()
+    try:
+        exp_a, exp_b = alone(a), alone(b)
+    except Exception:
+        return 'skip'
+    inner = {}
+
+    class Sink(object):
+        def __init__(self):
+            self.parts = []
+
+        def write(self, data):
+            self.parts.append(data)
+            if 'b' not in inner:
+                inner['b'] = None
+                try:
+                    if rng.random() < 0.5:
+                        inner['b'] = alone(b)
+                    else:
+                        inner['b'] = alone(collada.Collada(io.BytesIO(render(specs[1])), ignore=[err_class('DaeError')]))
+                except Exception as e:
+                    inner['b'] = ('raised %s' % type(e).__name__).encode()
+    sink = Sink()
+    try:
+        a.write(sink)
+    except Exception as e:
+        return ('nested:raised', 'writing %s while another document is written inside the sink raised %s' % (specs[0]['ns'], type(e).__name__))
+    got_a = b''.join(sink.parts)
+    if inner.get('b') is not None and inner['b'] != exp_b:
+        return ('nested:inner-differs', 'a document in namespace %s written while a document in namespace %s is being written differs from the same document written alone: %s'
+                % (specs[1]['ns'], specs[0]['ns'], text_diff(inner['b'], exp_b)))
+    if got_a != exp_a:
+        return ('nested:outer-differs', 'a document in namespace %s during whose write a document in namespace %s was written differs from the same document written alone: %s'
+                % (specs[0]['ns'], specs[1]['ns'], text_diff(got_a, exp_a)))
     return None
 
 
@@ -1316,6 +1394,20 @@ def _run(ctx, z):
             reported.add('iso:' + ab[0])
             ctx.violation('iso:' + ab[0], ab[1], dict(kind='adopt', seed=aseed))
 
+    # --- (c'') another document handled in the middle of a write
+    for i in range(ctx.n(120, 2500)):
+        nseed = ctx.rng.randrange(10 ** 9)
+        try:
+            nb = nested_write_check(nseed)
+        except Exception as e:
+            nb = ('nested:check-raised:' + type(e).__name__, 'nested write check raised %s: %s' % (type(e).__name__, e))
+        if nb == 'skip':
+            continue
+        ctx.count('nested-write')
+        if nb and 'iso:' + nb[0] not in reported:
+            reported.add('iso:' + nb[0])
+            ctx.violation('iso:' + nb[0], nb[1], dict(kind='nested', seed=nseed))
+
     # --- (d) threads on distinct documents
     if ctx.thorough:
         thread_soak(ctx, z, reported, 60.0 * min(1.0, float(os.environ.get('VERIF_SCALE', '1'))))
@@ -1496,6 +1588,11 @@ def replay(ctx, rep):
             if d['field'] == 'snap':
                 print('  ' + text_diff(*d['full']))
             return True
+        if kind == 'nested':
+            nb = nested_write_check(rep['seed'])
+            if nb and nb != 'skip':
+                print('  ' + nb[1])
+            return bool(nb) and nb != 'skip'
         if kind == 'adopt':
             ab = adopt_check(rep['seed'])
             if ab and ab != 'skip':
